@@ -779,3 +779,145 @@ Proof.
   exists (mkK (Val (-20)) Absent Absent), (mkK Null Absent Absent), (None, None, None).
   split; vm_compute; reflexivity.
 Qed.
+
+(* ------------------------------------------------------------------ design step: reference input powers *)
+Lemma input_powers_spec : forall pref b w feeds k,
+  zfind k (input_powers pref b w feeds) =
+  match zfind k feeds with Some f => Some (feed_power pref b w f) | None => None end.
+Proof.
+  intros pref b w feeds k. induction feeds as [| [k' f] t IH]; cbn; [reflexivity |].
+  destruct (k' =? k)%Z; [reflexivity | exact IH].
+Qed.
+
+Lemma qmax_list_upper : forall l m x, qmax_list l = Some m -> In x l -> x <= m.
+Proof.
+  intros [| h t] m x H Hin; cbn in H; [discriminate |]. inversion H; subst. apply qmaxl_upper. exact Hin.
+Qed.
+
+Lemma qmax_list_in_opt : forall l x, In x l -> exists m, qmax_list l = Some m /\ x <= m.
+Proof.
+  intros [| h t] x Hin; [destruct Hin |]. exists (qmaxl h t). split; [reflexivity |]. apply qmaxl_upper. exact Hin.
+Qed.
+
+Lemma zfind_in_snd : forall (l : list (Z * Q)) k v, zfind k l = Some v -> In (k, v) l.
+Proof.
+  induction l as [| [k' v'] t IH]; intros k v H; cbn in H; [discriminate |].
+  destruct (k' =? k)%Z eqn:E.
+  - inversion H; subst. apply Z.eqb_eq in E. subst. left. reflexivity.
+  - right. apply IH. exact H.
+Qed.
+
+(* every reference target the ROADM can resolve is at most target_to_be_supported *)
+Lemma supported_bounds_targets : forall r b w m,
+  supported r b w = Ok m -> refc r = Some (b, w) ->
+  forall deg rt, ref_target r deg = Ok (Some rt) -> rt <= m.
+Proof.
+  intros r b w m Hs Hrc deg rt Hrt. unfold supported in Hs.
+  set (t1 := opt_list (qmax_list (map snd (dpow r)))) in *.
+  set (t2 := opt_list (qmax_list (map (fun kv => snd kv + b) (dpsd r)))) in *.
+  set (t3 := opt_list (qmax_list (map (fun kv => snd kv + w) (dpsw r)))) in *.
+  set (t4 := opt_list (npow r)) in *.
+  set (t5 := opt_list (match npsd r with Some d => Some (d + b) | None => None end)) in *.
+  set (t6 := opt_list (match npsw r with Some d => Some (d + w) | None => None end)) in *.
+  destruct (qmax_list (t1 ++ t2 ++ t3 ++ t4 ++ t5 ++ t6)) as [m' |] eqn:Hm; [| discriminate].
+  inversion Hs; subst m'.
+  assert (Hup : forall x, In x (t1 ++ t2 ++ t3 ++ t4 ++ t5 ++ t6) -> x <= m)
+    by (intros x Hx; eapply qmax_list_upper; eassumption).
+  assert (Hvia : forall (l : list Q) x, In x l -> forall pre post,
+            (forall y, In y (pre ++ opt_list (qmax_list l) ++ post) -> y <= m) -> x <= m).
+  { intros l x Hx pre post Hall. destruct (qmax_list_in_opt l x Hx) as (mm & Emm & Hle).
+    eapply Qle_trans; [exact Hle |]. apply Hall. apply in_or_app. right. apply in_or_app. left.
+    rewrite Emm. left. reflexivity. }
+  unfold ref_target, resolve in Hrt. rewrite Hrc in Hrt.
+  destruct (zfind deg (dpow r)) as [t |] eqn:E1.
+  { inversion Hrt; subst rt. apply (Hvia (map snd (dpow r)) t) with (pre := []) (post := t2 ++ t3 ++ t4 ++ t5 ++ t6).
+    - apply zfind_in_snd in E1. apply (in_map snd) in E1. exact E1.
+    - exact Hup. }
+  destruct (zfind deg (dpsd r)) as [d |] eqn:E2.
+  { inversion Hrt; subst rt. cbn [target_dbm].
+    apply (Hvia (map (fun kv => snd kv + b) (dpsd r)) (d + b)) with (pre := t1) (post := t3 ++ t4 ++ t5 ++ t6).
+    - apply zfind_in_snd in E2. apply (in_map (fun kv : Z * Q => snd kv + b)) in E2. exact E2.
+    - exact Hup. }
+  destruct (zfind deg (dpsw r)) as [d |] eqn:E3.
+  { inversion Hrt; subst rt. cbn [target_dbm].
+    apply (Hvia (map (fun kv => snd kv + w) (dpsw r)) (d + w)) with (pre := t1 ++ t2) (post := t4 ++ t5 ++ t6).
+    - apply zfind_in_snd in E3. apply (in_map (fun kv : Z * Q => snd kv + w)) in E3. exact E3.
+    - intros y Hy. apply Hup. rewrite <- app_assoc in Hy. exact Hy. }
+  unfold node_policy in Hrt.
+  destruct (npow r) as [t |] eqn:N1.
+  { inversion Hrt; subst rt. apply Hup. subst t4. cbn [opt_list]. repeat (apply in_or_app; right). left. reflexivity. }
+  destruct (npsd r) as [d |] eqn:N2.
+  { inversion Hrt; subst rt. cbn [target_dbm]. apply Hup. subst t4 t5. cbn [opt_list app].
+    repeat (apply in_or_app; right). left. reflexivity. }
+  destruct (npsw r) as [d |] eqn:N3.
+  { inversion Hrt; subst rt. cbn [target_dbm]. apply Hup. subst t4 t5 t6. cbn [opt_list app].
+    repeat (apply in_or_app; right). left. reflexivity. }
+  discriminate.
+Qed.
+
+(* no "target can not be met" warning for an ingress degree (its reference input power, less the largest path loss,
+   still reaches target_to_be_supported)  =>  the reference channel leaves on the egress degree's target *)
+Lemma ref_on_target_when_supported : forall r deg from l o b w m rin mls mx,
+  propagate r deg from l = Ok o -> refc r = Some (b, w) -> supported r b w = Ok m ->
+  zfind from (refin r) = Some rin -> path_maxloss r from deg l = Ok (mls, mx) -> m + mx <= rin ->
+  exists rtg, ref_target r deg = Ok (Some rtg) /\ o_ref_out o == rtg /\ o_ref_loss o == rin - rtg.
+Proof.
+  intros r deg from l o b w m rin mls mx H Hrc Hs Hin Hm Hle.
+  destruct (roadm_reports _ _ _ _ _ H) as (mls' & mx' & rin' & rtg & Hm' & Hin' & Hrt & _ & Hro & Hrl & _).
+  rewrite Hm in Hm'. inversion Hm'; subst mls' mx'. rewrite Hin in Hin'. inversion Hin'; subst rin'.
+  pose proof (supported_bounds_targets r b w m Hs Hrc deg rtg Hrt) as Hb.
+  exists rtg. split; [exact Hrt |].
+  assert (E : o_ref_out o == rtg) by (rewrite Hro; apply Q.min_r; lra).
+  split; [exact E |]. rewrite Hrl, E. reflexivity.
+Qed.
+
+(* ------------------------------------------------------------------ design step: internal paths *)
+Lemma mapM_ok_in : forall (A B : Type) (f : A -> res B) l ys x,
+  mapM f l = Ok ys -> In x l -> exists y, f x = Ok y /\ In y ys.
+Proof.
+  intros A B f. induction l as [| a t IH]; intros ys x H Hin; [destruct Hin |].
+  cbn in H. destruct (f a) as [y |] eqn:Ey; cbn [bind] in H; [| discriminate].
+  destruct (mapM f t) as [ys' |] eqn:Et; cbn [bind] in H; [| discriminate].
+  inversion H; subst. destruct Hin as [E | Hin].
+  - subst. exists y. split; [exact Ey | left; reflexivity].
+  - destruct (IH ys' x eq_refl Hin) as (y' & Ey' & Hy'). exists y'. split; [exact Ey' | right; exact Hy'].
+Qed.
+
+Lemma typed_call_shape : forall profs d want from to c,
+  typed_call profs d want from to = Ok c -> c = mkCall from to want (pdi_find d from to).
+Proof.
+  intros profs d want from to c H. unfold typed_call in H.
+  destruct (prof_type profs (pdi_find d from to)) as [t |]; [destruct (ptype_eqb t want); [| discriminate] |];
+    inversion H; reflexivity.
+Qed.
+
+(* every pair (ingress, egress) gets its internal path: express between line degrees, drop towards and add from a
+   transceiver degree, each with the impairment id the user chose for that pair (if any) *)
+Lemma internal_paths_covers : forall profs pdis prev next drops adds calls,
+  internal_paths profs pdis prev next drops adds = Ok calls ->
+  let d := pdi_dict pdis in
+  (forall from to, In from prev -> In to next -> In (mkCall from to Express (pdi_find d from to)) calls) /\
+  (forall from dr, In from prev -> In dr drops -> In (mkCall from dr Drop (pdi_find d from dr)) calls) /\
+  (forall ad to, In ad adds -> In to next -> In (mkCall ad to Add (pdi_find d ad to)) calls).
+Proof.
+  intros profs pdis prev next drops adds calls H d. unfold internal_paths in H. fold d in H.
+  match type of H with bind ?M _ = _ => destruct M as [a |] eqn:Ha end; cbn [bind] in H; [| discriminate].
+  match type of H with bind ?M _ = _ => destruct M as [b |] eqn:Hb end; cbn [bind] in H; [| discriminate].
+  match type of H with (if ?c then _ else _) = _ => destruct c end; [| discriminate].
+  inversion H; subst calls. repeat split.
+  - intros from to Hf Ht.
+    destruct (mapM_ok_in _ _ _ _ _ from Ha Hf) as (y & Ey & Hy).
+    destruct (mapM (fun dr => typed_call profs d Drop from dr) drops) as [ds |]; cbn [bind] in Ey; [| discriminate].
+    inversion Ey; subst y. apply in_or_app. left. apply in_concat. eexists. split; [exact Hy |].
+    apply in_or_app. left. apply in_map_iff. exists to. split; [reflexivity | exact Ht].
+  - intros from dr Hf Hd.
+    destruct (mapM_ok_in _ _ _ _ _ from Ha Hf) as (y & Ey & Hy).
+    destruct (mapM (fun dr => typed_call profs d Drop from dr) drops) as [ds |] eqn:Eds; cbn [bind] in Ey; [| discriminate].
+    inversion Ey; subst y.
+    destruct (mapM_ok_in _ _ _ _ _ dr Eds Hd) as (c & Ec & Hc). apply typed_call_shape in Ec. subst c.
+    apply in_or_app. left. apply in_concat. eexists. split; [exact Hy |]. apply in_or_app. right. exact Hc.
+  - intros ad to Had Ht.
+    destruct (mapM_ok_in _ _ _ _ _ to Hb Ht) as (y & Ey & Hy).
+    destruct (mapM_ok_in _ _ _ _ _ ad Ey Had) as (c & Ec & Hc). apply typed_call_shape in Ec. subst c.
+    apply in_or_app. right. apply in_concat. eexists. split; [exact Hy | exact Hc].
+Qed.
